@@ -95,6 +95,82 @@ def skel (f n m : Nat) : DTree :=
 
 def skelAtoms (f n m : Nat) (v : Val) : DT.Res := eval (skel f n m) v
 
+/-! ## what the per-run obligation leaves open (the property speaks of the pairs as a SET)
+
+`canonRes` forgets the ORDER of the result list (digits sorted; a digit names its estimate and its partner, so the sorted
+list is the set of pairs) and — on the traffic-light path with ground truths present, where the text does not say whether
+unpaired estimates are reported — the unpaired (FP) results. `harness/dt_c11.py` applies the same canonicalisation to
+the result of the real function before it emits a leaf. `pairForb` lists the valuations no input inside the property's
+quantifier ("unique non-null uuids per side and camera") induces: one object agreeing in uuid AND camera with both
+objects of the other side. -/
+
+/-- the digits of a result code (at most `fuel` of them); inverse of `codeOf` on lists of non-zero digits -/
+def digitsOf : Nat → Nat → List Nat
+  | 0, _ => []
+  | fuel + 1, k => if k = 0 then [] else (k % 10) :: digitsOf fuel (k / 10)
+
+def insertD (d : Nat) : List Nat → List Nat
+  | [] => [d]
+  | x :: xs => if d ≤ x then d :: x :: xs else x :: insertD d xs
+
+def sortD : List Nat → List Nat
+  | [] => []
+  | d :: ds => insertD d (sortD ds)
+
+/-- `digitOf i none = 1 + 3 i` -/
+def isFPDigit (d : Nat) : Bool := d % 3 == 1
+
+def canonDigits (dropFP : Bool) (ds : List Nat) : List Nat :=
+  sortD (if dropFP then ds.filter (fun d => !isFPDigit d) else ds)
+
+def canonRes (dropFP : Bool) : DT.Res → DT.Res
+  | .other k => .other (codeOf (canonDigits dropFP (digitsOf 6 k)))
+  | r => r
+
+/-- unpaired results are left open only where `_get_object_results_for_tlr` runs: traffic lights, both lists non-empty -/
+def dropFPOf (f n m : Nat) : Bool := f != 0 && n != 0 && m != 0
+
+def mapLeaf (g : DT.Res → DT.Res) : DTree → DTree
+  | .leaf r => .leaf (g r)
+  | .bnode a n y => .bnode a (mapLeaf g n) (mapLeaf g y)
+  | .cnode a l e gt => .cnode a (mapLeaf g l) (mapLeaf g e) (mapLeaf g gt)
+
+theorem eval_mapLeaf (g : DT.Res → DT.Res) (v : Val) : ∀ t : DTree, eval (mapLeaf g t) v = g (eval t v) := by
+  intro t
+  induction t with
+  | leaf r => rfl
+  | bnode a n y ihn ihy =>
+    rw [mapLeaf, eval, eval]
+    cases v.b a
+    · exact ihn
+    · exact ihy
+  | cnode a l e gt ihl ihe ihg =>
+    rw [mapLeaf, eval, eval]
+    cases v.c a
+    · exact ihl
+    · exact ihe
+    · exact ihg
+
+/-- the skeleton with canonical leaves: what the code's table is compared with -/
+def skelC (f n m : Nat) : DTree := mapLeaf (canonRes (dropFPOf f n m)) (skel f n m)
+
+theorem eval_skelC (f n m : Nat) (v : Val) : eval (skelC f n m) v = canonRes (dropFPOf f n m) (skelAtoms f n m v) :=
+  eval_mapLeaf _ v _
+
+/-- valuations outside the quantifier: estimate `i` shares uuid and camera with both ground truths, or ground truth `j`
+with both estimates (then two objects of one side share uuid and camera) -/
+def pairForb : List (List Lit) :=
+  [[.b (aUuid 0 0) true, .b (aFrame 0 0) true, .b (aUuid 0 1) true, .b (aFrame 0 1) true],
+   [.b (aUuid 1 0) true, .b (aFrame 1 0) true, .b (aUuid 1 1) true, .b (aFrame 1 1) true],
+   [.b (aUuid 0 0) true, .b (aFrame 0 0) true, .b (aUuid 1 0) true, .b (aFrame 1 0) true],
+   [.b (aUuid 0 1) true, .b (aFrame 0 1) true, .b (aUuid 1 1) true, .b (aFrame 1 1) true]]
+
+/-- the canonical form keeps the set of pairs: reordered results have the same canonical code, different sets differ -/
+example : canonRes false (.other 26) = .other 62 ∧ canonRes false (.other 62) = .other 62 ∧
+    canonRes false (.other 35) = .other 53 ∧ canonRes false (.other 53) ≠ canonRes false (.other 62) ∧
+    canonRes true (.other 214) = .other 2 ∧ canonRes false (.other 214) = .other 421 ∧
+    canonRes true (.raise 6) = .raise 6 ∧ canonRes true (.other 999999) = .other 999999 := by decide
+
 /-! ## the model's own functions on index objects, tests read from the valuation -/
 
 /-- estimate `i` has id `i`, ground truth `j` has id `10 + j`; uuids are non-null -/
